@@ -209,6 +209,7 @@ impl Monitor for C07 {
             "msgkind_any_refused",
             "msgkind_distribution_other_refused",
             "directed_scenarios_completed",
+            "migrations_run",
         ]
     }
     fn rule(&self) -> &'static str {
@@ -236,7 +237,21 @@ impl Monitor for C07 {
         }
         let mut pre = p.snap();
         let n = h.tier.pick(60, 100);
-        for _ in 0..n {
+        let migrate_at = if kind == Kind::Subkeys && h.idx % 3 == 1 { h.rng.range(5, 50) as usize } else { usize::MAX };
+        for i in 0..n {
+            if i == migrate_at {
+                // upgrade from an older release: the grants (and therefore who may relay what) must survive
+                let v = *h.rng.pick(&["0.13.4", "1.1.2", "1.0.0", "0.9.1", "2.0.0"]);
+                cw2::set_contract_version(&mut p.w.store, "crates.io:cw1-subkeys", v).unwrap();
+                let r = p.w.tx(|d, e| cw1_subkeys::contract::migrate(d, e, cosmwasm_std::Empty {}));
+                h.out.evaluations += 1;
+                h.note(format!("migrate from {v} => {}", r.class()));
+                if r.is_ok() {
+                    h.out.count("migrations_run");
+                }
+                pre = p.snap();
+                continue;
+            }
             if h.rng.chance(1, 5) {
                 let s = pre.clone();
                 gen_advance(&mut h.rng, &mut p, &s);
